@@ -269,6 +269,93 @@ VCHECK("c02.sweep", 16)
     }
 }
 
+// Deterministic single structural edit (enum engine): every seed x every element below the root x {delete, duplicate,
+// drop its children, rename to an unknown tag, re-namespace, swap with the next sibling, hoist above its parent}.
+// "valid stanzas with children deleted, duplicated, reordered, re-namespaced or nested under the wrong parent", one edit at
+// a time at every position the repository's own documents have: a parser that mishandles one specific missing child
+// (a loop that never advances, an unchecked optional) is reached by construction, not by luck.
+VCHECK("c02.sweep-structure", 16)
+{
+    auto &corp = xm::corpus();
+    Input in;
+    in.seed = int(t.u(uint32_t(corp.trees.size())));
+    xm::XNode tree = corp.trees[in.seed];
+    // (parent, index) of every element below the root, document order
+    struct Ref {
+        xm::XNode *parent;
+        int idx;
+        xm::XNode *grand;
+        int parentIdx;
+    };
+    std::vector<Ref> refs;
+    std::function<void(xm::XNode *, xm::XNode *, int)> walk = [&](xm::XNode *n, xm::XNode *parent, int idxInParent) {
+        for (int i = 0; i < n->kids.size() && refs.size() < 48; i++) {
+            if (n->kids[i].isText)
+                continue;
+            refs.push_back({ n, i, parent, idxInParent });
+            walk(&n->kids[i], n, i);
+        }
+    };
+    walk(&tree, nullptr, -1);
+    if (refs.empty()) {
+        c.label("document-without-child-elements");
+        return;
+    }
+    const Ref r = refs[t.u(uint32_t(refs.size()))];
+    xm::XNode &node = r.parent->kids[r.idx];
+    const QString name = node.name;
+    static const char *actions[] = { "delete", "duplicate", "drop-children", "rename", "re-namespace", "swap-with-next", "hoist-above-parent" };
+    const uint32_t action = t.u(7);
+    switch (action) {
+    case 0: r.parent->kids.remove(r.idx); break;
+    case 1: {
+        xm::XNode copy = node;
+        r.parent->kids.insert(r.idx, copy);
+        break;
+    }
+    case 2: node.kids.clear(); break;
+    case 3: node.name = QStringLiteral("zzz-unknown"); break;
+    case 4: node.ns = QStringLiteral("urn:verif:other-namespace"); break;
+    case 5: {
+        int j = r.idx + 1;
+        while (j < r.parent->kids.size() && r.parent->kids[j].isText)
+            j++;
+        if (j >= r.parent->kids.size()) {
+            c.label("no-next-sibling");
+            return;
+        }
+        std::swap(r.parent->kids[r.idx], r.parent->kids[j]);
+        break;
+    }
+    default: {
+        if (!r.grand) {
+            c.label("no-grandparent");
+            return;
+        }
+        xm::XNode moved = node;
+        r.parent->kids.remove(r.idx);
+        r.grand->kids.insert(r.parentIdx, moved);   // nested under the wrong parent (one level up, before its old parent)
+        break;
+    }
+    }
+    in.xml = xm::toXml(tree);
+    in.parsed = xu::parseFragment(in.xml);
+    if (!in.parsed.ok())
+        return;
+    in.target = in.parsed.el;
+    in.mutations = 1;
+    in.desc = QStringLiteral("seed#%1 structural-edit[%2 <%3>] target=<%4 xmlns='%5'>").arg(in.seed).arg(QString::fromLatin1(actions[action]), name, in.target.tagName(), in.target.namespaceURI());
+    c.sample([&] { return q(in.desc); });
+    c.label(std::string("edit:") + actions[action]);
+    c.nontrivial(vh::fnv(in.xml.toUtf8()));
+    for (const auto &k : codec::all()) {
+        bool core = !strcmp(k.name, "QXmppMessage") || !strcmp(k.name, "QXmppPresence") || !strcmp(k.name, "QXmppIq") || !strcmp(k.name, "QXmppStanza::Error") || !strcmp(k.name, "QXmppDataForm") ||
+            !strcmp(k.name, "QXmppElement");
+        if (k.typed || core)
+            checkCodec(c, k, in);
+    }
+}
+
 // message in the three SCE modes (the statement lists them for message)
 VCHECK("c02.message-modes", 600)
 {
